@@ -55,6 +55,7 @@ type FuncContract struct {
 	Props    []string
 	Pure     bool
 	Inline   bool
+	Recursive int
 	Trusted  string
 	MayPanic bool
 	Olds     []*Clause
@@ -135,6 +136,9 @@ func parseContracts(fset *token.FileSet, f *ast.File, pkgPath string) ([]*FuncCo
 				word, rest = line[:i], strings.TrimSpace(line[i+1:])
 			}
 			kw, label := splitLabel(word)
+			if kw == "load" {
+				continue // package dependency hint, handled by the driver
+			}
 			if kw == "func" {
 				cur = &FuncContract{RawName: rest, PkgPath: pkgPath, Key: canonKey(pkgPath, rest),
 					LoopInv: map[int][]*Clause{}, LoopDec: map[int]*Clause{}, LoopUnroll: map[int]int{}, LoopAssigns: map[int]*Clause{},
@@ -155,6 +159,13 @@ func parseContracts(fset *token.FileSet, f *ast.File, pkgPath string) ([]*FuncCo
 				cur.Pure = true
 			case "inline":
 				cur.Inline = true
+			case "recursive":
+				// recursive spec function: an uninterpreted function with its definition unfolded at each application (to the given depth, default 1)
+				cur.Pure = true
+				cur.Recursive = 1
+				if n, err := strconv.Atoi(rest); err == nil && n > 0 {
+					cur.Recursive = n
+				}
 			case "trusted":
 				cur.Trusted = rest
 				if rest == "" {
